@@ -36,6 +36,16 @@ CHECKS = {
                      "type-directed values, lists of 0..3, containers to depth 4 and undeclared extras, and the "
                      "attribute exposure of untyped commands against the reference tree.",
                 ref="4 C03", note=BASE_NOTE + "; AVP order within a level is not part of the claim."),
+    "C04": dict(cat="exploration", tech="allowed-exception-set monitor at the decode API boundary + Unpacker cursor "
+                "invariants after every primitive + logical step counter, on generated hostile inputs",
+                text="Every hostile input goes through Message.from_bytes (typed and plain), Avp.from_bytes, recursive "
+                     ".value access and str() of every AVP and header; anything other than the library's decode errors "
+                     "is a witness, so is a successful primitive leaving the cursor outside the buffer, an AVP parse "
+                     "consuming < 8 bytes, or a step count above (nesting+2)*(len/2+64). Inputs: random strings to "
+                     "64 KiB, every prefix of valid messages, bit flips, every length field x 9 boundary values, every "
+                     "AVP type x payload length 0..20 x invalid content in four embeddings, nesting to 16.",
+                ref="4 C04", note=BASE_NOTE + "; linear time is judged on a logical step count, not wall-clock; "
+                "diameter.message.dump() is observed but not judged."),
 }
 
 NOT_YET = "check not built yet in this round (planned in DESIGN.md section 4); no claim is made"
